@@ -126,7 +126,11 @@ def run_one(workdir, idx, rnd, ct):
                 and not isinstance(v, common._CALLABLE_TYPES + (__import__("types").GeneratorType, type)))
     has_hidden = any(hidden(v) for _, _, _, v in vrec.R.obs)
     stats["hidden_builtin_value"] = has_hidden
-    term = f"E2ECase {k} {common.coq_bool(se.imports_ok)} {common.coq_bool(has_hidden)} {common.coq_list(positions)}"
+    names = [t.name for t in se.tdstubs]
+    collision = len(names) != len(set(names))
+    stats["typed_dict_name_collision"] = collision
+    term = (f"E2ECase {k} {common.coq_bool(se.imports_ok)} {common.coq_bool(has_hidden)} {common.coq_bool(collision)} "
+            f"{common.coq_list(positions)}")
     del sys.modules[name]
     return {"term": term, "stats": stats, "stub": stub if idx < 3 else stub[:3000], "prog": name, "src": src if idx < 2 else None,
             "error": None}
